@@ -141,9 +141,12 @@ theorem RunInv_step (s s' : Sys) (l : Label) (h : RunInv s) (hf : FifoInv s) (he
       obtain ⟨f1, f2, _, _⟩ := hf
       split at hs
       · rename_i hmb
-        split at hs <;> cases hs
-        · exact RunInv_chunk s _ [_] h rfl (fun m a b c => by simp [r8Run, C08.r8Step, a, b]; exact c) (by simp)
-        · refine RunInv_neutral s _ [] h (by simp) rfl rfl ?_
+        split at hs
+        · split at hs <;> cases hs
+          · exact RunInv_chunk s _ [_, _] h rfl (fun m a b c => by simp [r8Run, C08.r8Step, a, b]; exact c) (by simp)
+          · exact RunInv_chunk s _ [_] h rfl (fun m a b c => by simp [r8Run, C08.r8Step, a, b]; exact c) (by simp)
+        · cases hs
+          refine RunInv_neutral s _ [] h (by simp) rfl rfl ?_
           intro _
           have hd := f2 hopen
           rw [hmb] at hd
@@ -152,8 +155,9 @@ theorem RunInv_step (s s' : Sys) (l : Label) (h : RunInv s) (hf : FifoInv s) (he
           simp only; omega
       · cases hs
         exact RunInv_chunk s _ [_] h rfl (fun m a b c => by simp [r8Run, C08.r8Step, a, b]; exact c) (by simp)
-      · cases hs
-        exact RunInv_chunk s _ [_] h rfl (fun m a b c => by simp [r8Run, C08.r8Step, a, b]; exact c) (by simp)
+      · split at hs <;> cases hs
+        · exact RunInv_chunk s _ [_, _] h rfl (fun m a b c => by simp [r8Run, C08.r8Step, a, b]; exact c) (by simp)
+        · exact RunInv_chunk s _ [_] h rfl (fun m a b c => by simp [r8Run, C08.r8Step, a, b]; exact c) (by simp)
     · cases hs
   | pollRun =>
     simp only [step?, Sys.runStep] at hs
